@@ -92,6 +92,8 @@ def formula_text(desc, t, host=None, full=False):
         return repr(float(v))
     if k == 'err':
         return t[1]
+    if k == 'raw':              # verbatim text: [raw, in-sheet form, fully qualified form]
+        return t[2] if full else t[1]
     if k in ('cell', 'rng', 'row', 'col', 'name'):
         return ref_text(desc, t, host, full)
     if k == 'bin':
